@@ -11,6 +11,9 @@ a failed coverage comparison - locals identified by role: the suite is marked ch
 minimisers and the coverages it is judged by, no minimiser runs after them, no coverage query takes the
 whole collection of functions; _directly_asserted_variables is interpreted over representative test
 cases.  Exactness of coverage after minimisation is not decided.
+Further clauses (added later): Statement removers also skip statements that carry assertions themselves
+(carrier rule). Guards that live in a predicate helper are inlined; statements that use a protected variable
+must be skipped as well.
 """
 
 from __future__ import annotations
